@@ -159,9 +159,13 @@ func shrink(c *Ctx, j Job, key string) (*scn.Scenario, *Run, int) {
 	cur := j.S
 	curRun, ok := fires(cur)
 	steps := 1
+	for !ok && steps < 4 { // a deterministic simulation reproduces at once; try a few times before concluding otherwise
+		curRun, ok = fires(cur)
+		steps++
+	}
 	if !ok {
-		// not reproducible in a fresh process: report the original as is
-		return j.S, curRun, steps
+		// not reproducible in fresh processes: the caller decides what that means
+		return j.S, nil, steps
 	}
 	if _, custom := j.S.Rig["no_shrink"]; custom {
 		return cur, curRun, steps
